@@ -10,7 +10,7 @@ import os
 from mon import refbufr as R
 from mon.compare import diff_message, opsig, jsonable
 from mon.gen import cases
-from mon import handover
+from mon import handover, midscan
 
 ID = 'C01'
 LEVEL = 'exploration'
@@ -112,6 +112,26 @@ def compare_case(ctx, decoder, msg, origin, name=None):
         return
     # the values a decode returned stay what they are when the message object (and objects derived from it) is used further
     handover.on_message(ctx, msg.bytes, spec, site=origin)
+    # ... and the same values come out when the message is decoded while scans are under way on the same decoder
+    recent = ctx.__dict__.setdefault('_c01_recent', [])
+    if len(msg.bytes) < 3000:
+        recent.append((msg.bytes, msg))
+    if len(recent) >= 6:
+        ctx.count('mid_scan_blocks')
+        if ctx.counters['mid_scan_blocks'] % (12 if ctx.quick else 6) == 1:
+            from pybufrkit.decoder import Decoder
+            midscan.scenarios(ctx, 'decode', Decoder, recent[:3], recent[3:6], judge_values, dict(origin='mid-scan', ids_a=[m.ids for _, m in recent[:3]]))
+        del recent[:]
+
+
+def judge_values(kind, m, msg, opts):
+    """oracle of C01 for a message delivered in the middle of other work: R's labels and values (full decodes)"""
+    if kind != 'full':
+        return None
+    d = diff_message(m, msg.subsets)
+    if d:
+        return 'decoded %s differ from FM-94 reading at subset %s field %s: observed %r expected %r' % (d[1], d[0], d[2], jsonable(d[3]), jsonable(d[4]))
+    return None
 
 
 def corpus_files():
